@@ -1484,7 +1484,13 @@ class IRGenerator:
 
         for namespace in self.api.namespaces.values():
             for data_type in namespace.data_types:
-                data_type._compute_examples()
+                try:
+                    data_type._compute_examples()
+                except RecursionError:
+                    raise InvalidSpec(
+                        'An example of %s refers back to itself through '
+                        'example references.' % quote(data_type.name),
+                        data_type._ast_node.lineno, data_type._ast_node.path)
 
     def _validate_doc_refs(self):
         """
